@@ -470,19 +470,21 @@ def run(ctx):
     suffix = "" if t else "_quick"
     first = True
     for pol in (("rr", "random", "lc") if t else ("rr", "lc")):
-        r = mc(ctx, "Balance", "MC_Balance_%s%s.cfg" % (pol, suffix), workers=8, timeout=900, coverage=(first and not t))
+        r = mc(ctx, "Balance", "MC_Balance_%s%s.cfg" % (pol, suffix), workers=4, timeout=900, coverage=(first and not t))
         first = False
-    r = mc(ctx, "Balance", "MC_Balance_rrfair%s.cfg" % suffix, workers=8, timeout=900)
+    r = mc(ctx, "Balance", "MC_Balance_rrfair%s.cfg" % suffix, workers=4, timeout=900)
     mc(ctx, "Balance", "MC_Balance_pinned.cfg", workers=4, timeout=300, expect_violated=INVS, count=False)
+    # anti-vacuity: a random source drawn from in two unsynchronised steps shared by the selectors must violate NoCrash
+    mc(ctx, "Balance", "MC_Balance_torn.cfg", workers=2, timeout=300, expect_violated=["NoCrash"], count=False)
     if t:
         mc(ctx, "Balance", "MC_Balance_live.cfg", workers=4, timeout=300)
         r = ctx.tlc("tcp", "Balance", "MC_Balance_live_pinned.cfg", workers=4, timeout=300, extra_files=[HOSTSET])
         if r.timeout or "Temporal property RemovedClosesEstablishedLive was violated" not in r.stdout:
             raise kit.Inconclusive("MC_Balance_live_pinned: expected the liveness counterexample of the pinned Remove, got: %s"
                                    % (r.error or r.violated))
-    mc(ctx, "BalanceE2E", "MC_BalanceE2E_fixed%s.cfg" % suffix, workers=8, timeout=900)
+    mc(ctx, "BalanceE2E", "MC_BalanceE2E_fixed%s.cfg" % suffix, workers=4, timeout=900)
     if t:
-        mc(ctx, "BalanceE2E", "MC_BalanceE2E_fixed_random.cfg", workers=8, timeout=900)
+        mc(ctx, "BalanceE2E", "MC_BalanceE2E_fixed_random.cfg", workers=4, timeout=900)
     mc(ctx, "BalanceE2E", "MC_BalanceE2E_pinned.cfg", workers=4, timeout=300, expect_violated=["ConnToUsable", "EstablishedClosed", "EView"], count=False)
     # anti-vacuity of the half-close strata: a watcher that exits when the client->backend copy ends (or with the
     # first finished direction) must violate EstablishedClosed
@@ -542,6 +544,32 @@ def run(ctx):
                           {"kind": "c06-rr", "case": x})
     ctx.cov["concurrency"] = {"cases": len(rr), "picks": sum(x["picks"] for x in rr)}
 
+    # ---- 3b. random / least-connection with their DEFAULT random source under real concurrency (policy level and
+    # through a real processor), in a worker process: a panic in PickHost / HandleConn kills the worker
+    cfile = os.path.join(ctx.work, "randconc.ndjson")
+    rc, so, se = ctx.harness(["c06-randconc", "-out", cfile, "-g", "24", "-ms", "1500" if t else "600"], timeout=600, allow_fail=True)
+    done = kit.read_ndjson(cfile) if os.path.exists(cfile) else []
+    if rc != 0:
+        m = re.search(r"(panic: .*|fatal error: .*)", se)
+        frames = [l.strip() for l in se.splitlines() if "samaritan/proc/" in l or "/proc/internal/lb/" in l or "/proc/tcp/" in l]
+        if m and frames:
+            ctx.violation("balancer-crash/concurrent-random-source",
+                          "the process crashed while %d goroutines picked hosts / connected concurrently with the default random source "
+                          "(phases completed before the crash: %s): %s; repo frames: %s" % (
+                              24, [(x["phase"], x["policy"]) for x in done], m.group(1), "; ".join(frames[:4])),
+                          {"kind": "c06-randconc", "stderr": se[-4000:], "completed": done})
+        else:
+            raise kit.Inconclusive("c06-randconc exited %d: %s" % (rc, se[-1500:]))
+    for x in done:
+        if x.get("err"):
+            raise kit.Inconclusive("c06-randconc: " + x["err"])
+        ctx.case(key=["randconc", x["phase"], x["policy"]], nontrivial=True, n=max(1, x["picks"]))
+        if x["bad"]:
+            ctx.violation("picked-outside-candidates/concurrent-random-source",
+                          "%s %s: %d of %d concurrent picks / connections did not go to a usable host (%s)" % (
+                              x["phase"], x["policy"], x["bad"], x["picks"], x.get("detail", "")), {"kind": "c06-randconc", "case": x})
+    ctx.cov["random_source_concurrency"] = done
+
     # ---- 4./5. end to end + trace validation
     disagreement = e2e(ctx, variant, found)
 
@@ -560,7 +588,7 @@ def replay(ctx, rep):
     """bin/check <id> --replay <file>: re-execute the recorded case (policy path or e2e behaviour)."""
     ctx.build()
     art = rep["artefact"]
-    mc(ctx, "Balance", "MC_Balance_rr_quick.cfg", workers=8, timeout=600)
+    mc(ctx, "Balance", "MC_Balance_rr_quick.cfg", workers=4, timeout=600)
     found = {}
     if art.get("kind") == "c06-policy":
         pfile = os.path.join(ctx.work, "one.ndjson")
